@@ -5,6 +5,7 @@
 From V.lib Require Import Base.
 From V.c09 Require Import C09Model C09Spec C09BaseProofs C09SttsProofs C09CttsProofs C09StscProofs C09TrakProofs C09TimeProofs C09CacheProofs.
 From V.c09 Require Import C09BuildModel C09BuildCttsProofs C09BuildStscProofs.
+From V.c09 Require Import C09ArithProofs C09PureModel C09PureProofs.
 
 (* a concrete non-trivial consistent table set: 7 samples, 3 stts runs, ctts, 2 stsc entries over 3 chunks,
    explicit sizes, stco, stss, sdtp *)
@@ -255,3 +256,101 @@ Theorem C09_builder_consistent : forall tb craw0 ccalls sraw0 sb0 scalls,
   consistent tb = true.
 Proof. exact builder_consistent. Qed.
 Print Assumptions C09_builder_consistent.
+
+(* ================= the arithmetic hypotheses of the stts queries, exactly (C09ArithProofs.v) =================
+   `consistent` bounds the number of samples by is_u32 (N + 1).  On the bare stts columns: *)
+
+(* SttsBox.GetDecodeTime needs NO arithmetic hypothesis: for ANY uint32 columns — the counts may sum to 2^32 and
+   beyond — and every uint32 sample number 1..N, decode time and duration are those of the expansion, without
+   uint64 wrap-around (a uint32 sample number has fewer than 2^32 predecessors of less than 2^32 ticks each) *)
+Theorem C09_decode_time_exact : forall cs ds, lenN cs = lenN ds -> forallb is_u32 ds = true ->
+  forall n, 1 <= n -> n <= sumN cs -> n < 4294967296 ->
+  exists t d, nthN (starts (expand_rl cs ds) 0) (n - 1) = Some t /\ nthN (expand_rl cs ds) (n - 1) = Some d /\
+              stts_get_decode_time cs ds n = Ok (t, d).
+Proof. exact decode_time_exact. Qed.
+Print Assumptions C09_decode_time_exact.
+Example ex_decode_time_exact :
+  stts_get_decode_time [4294967295; 4294967295] [4294967295; 7] 4294967295 = Ok (18446744060824649730, 4294967295).
+Proof. vm_compute. reflexivity. Qed.
+
+(* ... and past the last sample it panics for EVERY table (known finding C09-F4: no error result, the walk has no
+   bound; GetDur answers the last duration there) *)
+Theorem C09_decode_time_past_end : forall cs ds n, lenN cs = lenN ds -> sumN cs < n ->
+  stts_get_decode_time cs ds n = Panic.
+Proof. exact decode_time_past_end. Qed.
+Print Assumptions C09_decode_time_past_end.
+
+(* SttsBox.GetSampleNrAtTime needs exactly ONE arithmetic hypothesis: (sum of the counts) + 1 < 2^32, i.e. the
+   answer N+1 ("t strictly inside the last sample") is a uint32; the total duration is then < 2^64 by itself *)
+Theorem C09_sample_at_time_exact : forall cs ds, lenN cs = lenN ds ->
+  forallb is_u32 cs = true -> forallb is_u32 ds = true -> deltas_positive cs ds = true ->
+  1 <= sumN cs -> sumN cs + 1 < 4294967296 ->
+  forall t, stts_get_sample_nr_at_time cs ds t = match sat_spec cs ds t with Some nr => Ok nr | None => Err end.
+Proof. exact sample_at_time_exact. Qed.
+Print Assumptions C09_sample_at_time_exact.
+Example ex_sample_at_time_exact :
+  let cs := [3; 4294967290; 1] in let ds := [10; 4294967295; 0] in
+  lenN cs = lenN ds /\ forallb is_u32 cs = true /\ forallb is_u32 ds = true /\ deltas_positive cs ds = true /\
+  sumN cs + 1 = 4294967295 /\ stts_get_sample_nr_at_time cs ds 18446744043644780580 = Ok 4294967294.
+Proof. vm_compute. repeat split. Qed.
+
+(* just above, (sum of the counts) + 1 = 2^32 — the largest track stsz can describe — the statement is false of
+   the faithful model: for a time inside the last sample the answer N+1 = 2^32 wraps to sample number 0, with a nil
+   error (reproduced on the real code: corr case w-stts-wrap, search witness stts-count-2^32-1).  Low severity. *)
+Theorem C09_sample_at_time_wrap_refuted :
+  let cs := [4294967295] in let ds := [2] in
+  forallb is_u32 cs = true /\ deltas_positive cs ds = true /\ sumN cs + 1 = 4294967296 /\
+  stts_get_sample_nr_at_time cs ds 8589934589 = Ok 0 /\
+  stts_get_sample_nr_at_time cs ds 8589934588 = Ok 4294967295 /\
+  stts_get_decode_time cs ds 4294967295 = Ok (8589934588, 2).
+Proof. vm_compute. repeat split. Qed.
+Print Assumptions C09_sample_at_time_wrap_refuted.
+
+(* the FirstSampleNr cache (C09_stsc_cache, C09_builder_consistent) needs raw_ok: no uint32 wrap of
+   1 + samples of the earlier runs.  Just above — a first run of 2 chunks x 2^31 samples — the cached number of the
+   second run wraps to 1 and sample 1 is looked up in chunk 3 (such a table describes 2^32 samples or more: no stsz
+   can be consistent with it) *)
+Theorem C09_stsc_cache_wrap_refuted :
+  let raw := [(1, 2147483648, 1); (3, 1, 1)] in
+  rows_ok raw 3 = true /\ raw_ok raw = false /\ raw_ok [(1, 2147483647, 1); (3, 1, 1)] = true /\
+  map first_sample (sc_entries (stsc_of_table raw)) = [1; 1] /\
+  stsc_decode raw = Ok (stsc_of_table raw) /\
+  stsc_chunk_nr_from_sample_nr (sc_entries (stsc_of_table raw)) 1 = Ok (3, 1).
+Proof. vm_compute. repeat split. Qed.
+Print Assumptions C09_stsc_cache_wrap_refuted.
+
+(* ================= the queries do not change the boxes (C09PureModel.v) =================
+   Every query as a state transformer on the File / table-box state; the composite ones (GetSampleData,
+   GetRangesForSampleInterval, CopySampleData) thread the state through every method call they make. *)
+Definition ex_fstate : fstate := mkF false 92 [1; 2; 3; 4; 5; 6; 7; 8; 9] 0 ex_tb.
+Example ex_run :
+  run_all [QSampleData 2 3; QCopy false 1 2; QSampleAtTime 30; QRanges 2 6] ex_fstate =
+  ([Ok (ASamples [mkSample 16842752 10 5 0%Z; mkSample 33619968 10 6 (-3)%Z]); Ok (APieces [(100, 9)]); Ok (AN 4);
+    Ok (ARanges [mkRange 104 5; mkRange 200 13; mkRange 300 17])], ex_fstate).
+Proof. vm_compute. reflexivity. Qed.
+
+(* for every query q and every state s: run q s returns (answer, s) *)
+Theorem C09_queries_pure : forall q s, run q s = (eval q s, s).
+Proof. exact queries_pure. Qed.
+Print Assumptions C09_queries_pure.
+
+(* File.CopySampleData leaves the File / Mdat / table state as it found it (the ReadSeeker, the work buffer and
+   the writer are not File state: they are C08's subject) *)
+Theorem C09_copy_pure : forall rs a b s, snd (copy_sample_data_st rs a b s) = s.
+Proof. exact copy_pure. Qed.
+Print Assumptions C09_copy_pure.
+
+(* the state-threaded GetSampleData / GetRangesForSampleInterval answer what the functions of C09_sample_data /
+   C09_byte_ranges answer *)
+Theorem C09_composite_answers : forall a b s,
+  eval (QSampleData a b) s = rbind (trak_get_sample_data (f_tb s) a b) (fun l => Ok (ASamples l)) /\
+  eval (QRanges a b) s = rbind (trak_get_ranges (f_tb s) a b) (fun l => Ok (ARanges l)).
+Proof. exact composite_answers. Qed.
+Print Assumptions C09_composite_answers.
+
+(* order independence (the search re-asks every query in decreasing and shuffled order on the same boxes): in ANY
+   sequence of queries each one gets the answer it gets on the initial state, and the state at the end is the
+   initial state *)
+Theorem C09_queries_order_independent : forall qs s, run_all qs s = (map (fun q => eval q s) qs, s).
+Proof. exact run_all_pure. Qed.
+Print Assumptions C09_queries_order_independent.
